@@ -22,6 +22,9 @@ type PathQuery struct {
 	AvoidEdge  func(b *cfg.Block, succ int) bool
 	TargetExit bool // additionally: reaching a return statement (non-panic exit) counts as target
 	PanicExit  bool // with TargetExit: panic exits also count
+	// TargetBlock: entering a block that satisfies it (other than the start block) counts as target;
+	// needed for blocks without nodes (select-done, loop heads).
+	TargetBlock func(*cfg.Block) bool
 }
 
 // Find runs the search. It returns a witness path (sequence of points; only
@@ -84,6 +87,11 @@ func (q PathQuery) Find() ([]Point, bool) {
 	for found == nil && len(work) > 0 {
 		b := work[0]
 		work = work[1:]
+		if q.TargetBlock != nil && q.TargetBlock(b) {
+			pt := Point{b, 0}
+			found = &pt
+			break
+		}
 		if scan(b, 0, false) {
 			for si, s := range b.Succs {
 				if q.AvoidEdge != nil && q.AvoidEdge(b, si) {
